@@ -103,7 +103,7 @@ impl Property for C19 {
     fn decode(&self, t: &mut Tape) -> Case {
         let cfg = GenCfg::default();
         let expr = gen_expr(t, &cfg);
-        let n = t.weighted(&[60, 30, 10]);
+        let n = t.weighted(&[45, 25, 12, 10, 8]);
         let mut c2 = GenCfg::default();
         c2.max_toks = 4;
         let others: Vec<Expr> = (0..n).map(|_| gen_expr(t, &c2)).collect();
